@@ -85,6 +85,36 @@ SLICES = [
 ]
 
 
+# definitions sliced by line prefix (the whole line is taken verbatim, whatever its initialiser says)
+PREFIX_SLICES = [
+    ("src/String.cpp", "src/String.tables.slice.cpp", "#include <nstd/String.hpp>\n",
+     ["char String::lowerCaseMap[0x101] = ", "char String::upperCaseMap[0x101] = "]),
+]
+
+
+def _respell_string_initialiser(line, fname):
+    """`char X[N] = "...";` -> `char X[N] = {b0, b1, ..., 0};` with the same bytes: cbmc 6.11 aborts on a
+    string-literal initialiser of a static member array (symex type mismatch); a brace list is accepted.
+    Only \\xHH escapes (greedy, as in C) and plain characters without a backslash are understood."""
+    m = re.match(r'^(.*?= )"(.*)";\s*$', line)
+    if not m:
+        raise RuntimeError("slice anchor lost in %s: initialiser is not one string literal: %r" % (fname, line[:60]))
+    body, out, i = m.group(2), [], 0
+    while i < len(body):
+        c = body[i]
+        if c == "\\":
+            mm = re.match(r"\\x([0-9a-fA-F]+)", body[i:])
+            if not mm or int(mm.group(1), 16) > 0xff:
+                raise RuntimeError("slice anchor lost in %s: unsupported escape in initialiser at %d" % (fname, i))
+            out.append(int(mm.group(1), 16)); i += len(mm.group(0))
+        elif c == '"':
+            raise RuntimeError("slice anchor lost in %s: concatenated literals in initialiser" % fname)
+        else:
+            out.append(ord(c)); i += 1
+    out.append(0)
+    return m.group(1) + "{" + ", ".join("(char)%d" % b for b in out) + "};"
+
+
 def _extract_between(text, start_marker, end_marker, fname):
     """verbatim text from the line containing start_marker up to (excluding) the line containing end_marker"""
     if text.count(start_marker) != 1:
@@ -195,6 +225,17 @@ def apply(tree):
         open(os.path.join(tree, out), "w").write("\n".join(parts))
         fired.append({"file": src, "kind": "slice", "pattern": "; ".join(firsts), "count": len(firsts),
                       "why": "function slice -> %s (verbatim function texts; the rest of the file is dropped)" % out})
+    for (src, out, prelude, prefixes) in PREFIX_SLICES:
+        text = open(os.path.join(tree, src)).read().split("\n")
+        taken = []
+        for pre in prefixes:
+            hits = [l for l in text if l.startswith(pre)]
+            if len(hits) != 1 or not hits[0].rstrip().endswith(";"):
+                raise RuntimeError("slice anchor lost in %s: %r" % (src, pre))
+            taken.append(_respell_string_initialiser(hits[0], src))
+        open(os.path.join(tree, out), "w").write(prelude + "\n".join(taken) + "\n")
+        fired.append({"file": src, "kind": "slice", "pattern": "; ".join(prefixes), "count": len(prefixes),
+                      "why": "definition slice -> %s (one-line definitions; the string-literal initialiser is re-spelled as a brace list of the same bytes; the rest of the file is dropped)" % out})
     return fired
 
 
